@@ -31,6 +31,9 @@ type c15Op struct {
 	Toks []int  `json:"toks"` // request tokens of a call
 	Ctx  string `json:"ctx"`  // call: "" live context, "cancel" already cancelled, "deadline" deadline passed
 	Rep  int    `json:"rep"`  // Use/Unuse: the argument list repeated this many times (0 = once)
+	M    string `json:"m"`    // call: published function: "" echo, "fail" returns an error, "boom" panics
+	CC   int    `json:"cc"`   // call: 0 fresh context; k>0: reuse context slot k across calls
+	CCM  string `json:"ccm"`  // "ctx": the same context.Context object; "cc": the same *ClientContext in a fresh context.Context
 }
 
 type c15Round struct {
@@ -98,6 +101,7 @@ type env struct {
 	service *core.Service
 	pool    []interface{}
 	probe   int32
+	slots   map[int]*ctxSlot
 	seq      bool // one operation at a time: wait for abandoned service work after every call
 }
 
@@ -115,11 +119,25 @@ func (t *callTrace) add(s string) {
 
 type traceKeyT struct{}
 
+// a context.Context reused for several calls carries a holder whose trace is swapped per call
+type traceHolder struct{ tr atomic.Value }
+
 func traceOf(ctx context.Context) *callTrace {
-	if t, ok := ctx.Value(traceKeyT{}).(*callTrace); ok {
+	switch t := ctx.Value(traceKeyT{}).(type) {
+	case *callTrace:
 		return t
+	case *traceHolder:
+		if tr, ok := t.tr.Load().(*callTrace); ok {
+			return tr
+		}
 	}
 	return &callTrace{}
+}
+
+type ctxSlot struct {
+	holder *traceHolder
+	ctx    context.Context     // built once: WithContext(holder ctx, NewClientContext())
+	cc     *core.ClientContext // built once
 }
 
 // which side of the wire the handler finds itself on
@@ -136,6 +154,7 @@ func nodeOf(ctx context.Context) string {
 }
 
 type res struct {
+	wire  bool // response bytes that encode an error, returned with a nil Go error
 	ok    bool
 	toks  []int
 	e     int
@@ -144,7 +163,13 @@ type res struct {
 
 // the request as an event shows it: the state of the context the handler was given (9001
 // cancelled, 9002 deadline exceeded) in front of the request tokens
-func fmtReq(ctx context.Context, t []int) string {
+func fmtReq(ctx context.Context, name string, t []int) string {
+	switch name {
+	case "fail":
+		t = append([]int{8001}, t...)
+	case "boom":
+		t = append([]int{8002}, t...)
+	}
 	switch ctx.Err() {
 	case nil:
 		return fmtToks(t)
@@ -170,6 +195,8 @@ func (r res) String() string {
 		return "?" + r.other
 	case r.ok:
 		return "ok" + fmtToks(r.toks)
+	case r.wire:
+		return "werr(" + strconv.Itoa(r.e) + ")"
 	default:
 		return "err(" + strconv.Itoa(r.e) + ")"
 	}
@@ -290,7 +317,11 @@ func projIO(b []byte, err error) res {
 	case io.TagError:
 		var msg string
 		dec.Decode(&msg)
-		return errRes(errors.New(msg))
+		x := errRes(errors.New(msg))
+		if x.other == "" {
+			x.wire = true
+		}
+		return x
 	}
 	return res{other: "response:" + string(b)}
 }
@@ -309,7 +340,7 @@ func runInvoke(sl *slot, ctx context.Context, name string, args []interface{}, n
 	if !okReq {
 		tr.add("+" + lab + "?" + fmt.Sprint(args))
 	} else {
-		tr.add("+" + lab + fmtReq(ctx, req))
+		tr.add("+" + lab + fmtReq(ctx, name, req))
 	}
 	beh, mids := sl.current()
 	for _, m := range mids {
@@ -360,7 +391,7 @@ func runIO(sl *slot, ctx context.Context, request []byte, next core.NextIOHandle
 	if !okReq {
 		tr.add("+" + lab + "?" + string(request))
 	} else {
-		tr.add("+" + lab + fmtReq(ctx, req))
+		tr.add("+" + lab + fmtReq(ctx, name, req))
 	}
 	beh, mids := sl.current()
 	for _, m := range mids {
@@ -635,8 +666,18 @@ func mkValue(e c15Entry, sl *slot) (interface{}, error) {
 // ---------------------------------------------------------------- running a case
 
 func echo(ctx context.Context, toks ...int) []int {
-	traceOf(ctx).add("*" + fmtReq(ctx, toks))
+	traceOf(ctx).add("*" + fmtReq(ctx, "echo", toks))
 	return append(append([]int{}, toks...), 99)
+}
+
+func fail(ctx context.Context, toks ...int) ([]int, error) {
+	traceOf(ctx).add("*" + fmtReq(ctx, "fail", toks))
+	return nil, errors.New("e77")
+}
+
+func boom(ctx context.Context, toks ...int) []int {
+	traceOf(ctx).add("*" + fmtReq(ctx, "boom", toks))
+	panic("e78")
 }
 
 // Use / Unuse through the public API; a panic is an observation
@@ -674,11 +715,19 @@ func (e *env) apply(op c15Op) (status string) {
 }
 
 func (e *env) call(toks []int, mode ...string) (c c15Call) {
-	c, _ = e.callB(toks, mode...)
+	op := c15Op{Toks: toks}
+	if len(mode) > 0 {
+		op.Ctx = mode[0]
+	}
+	c, _ = e.callOp(op)
 	return c
 }
 
-func (e *env) callB(toks []int, mode ...string) (c c15Call, ballast int64) {
+func (e *env) callB(toks []int) (c15Call, int64) { return e.callOp(c15Op{Toks: toks}) }
+
+func (e *env) callOp(op c15Op) (c c15Call, ballast int64) {
+	toks := op.Toks
+	mode := []string{op.Ctx}
 	tr := &callTrace{}
 	// the service side of a call the transport gave up on keeps running: let it finish before
 	// anything else happens, so that the next operation finds a quiet system
@@ -692,6 +741,24 @@ func (e *env) callB(toks []int, mode ...string) (c c15Call, ballast int64) {
 		}
 	}()
 	ctx := context.WithValue(context.Background(), traceKeyT{}, tr)
+	if op.CC > 0 {
+		// the caller keeps one ClientContext / one context.Context for several calls
+		if e.slots == nil {
+			e.slots = map[int]*ctxSlot{}
+		}
+		sl := e.slots[op.CC]
+		if sl == nil {
+			sl = &ctxSlot{holder: &traceHolder{}, cc: core.NewClientContext()}
+			sl.ctx = core.WithContext(context.WithValue(context.Background(), traceKeyT{}, sl.holder), core.NewClientContext())
+			e.slots[op.CC] = sl
+		}
+		if op.CCM == "cc" {
+			ctx = core.WithContext(ctx, sl.cc)
+		} else {
+			sl.holder.tr.Store(tr)
+			ctx = sl.ctx
+		}
+	}
 	if len(mode) > 0 {
 		switch mode[0] {
 		case "cancel":
@@ -708,7 +775,11 @@ func (e *env) callB(toks []int, mode ...string) (c c15Call, ballast int64) {
 	for i, t := range toks {
 		args[i] = t
 	}
-	r, err := e.client.InvokeContext(ctx, "echo", args)
+	name := "echo"
+	if op.M != "" {
+		name = op.M
+	}
+	r, err := e.client.InvokeContext(ctx, name, args)
 	x := projInvoke(r, err)
 	e.quiesce()
 	tr.mu.Lock()
@@ -813,6 +884,8 @@ func c15Run(line []byte, out *json.Encoder) error {
 	addr := "c15-" + strconv.Itoa(c.ID)
 	e.service = core.NewService()
 	e.service.AddFunction(echo, "echo")
+	e.service.AddFunction(fail, "fail")
+	e.service.AddFunction(boom, "boom")
 	server := mock.Server{Address: addr}
 	if err := e.service.Bind(server); err != nil {
 		return err
@@ -836,7 +909,7 @@ func c15Run(line []byte, out *json.Encoder) error {
 	} else {
 		for _, op := range c.Ops {
 			if op.Op == "C" {
-				r := e.call(op.Toks, op.Ctx)
+				r, _ := e.callOp(op)
 				obs.Outs = append(obs.Outs, "call:"+r.Trace+"=>"+r.Res)
 			} else {
 				obs.Outs = append(obs.Outs, e.apply(op))
